@@ -468,7 +468,7 @@ def dup_seq_items(spec, rng):
 
 def shard(ctx):
     rng = ctx.rng
-    n_models = ctx.budget(6500, 120000)
+    n_models = ctx.budget(9000, 120000)
     for i in range(n_models):
         profile = 'unamb' if rng.random() < 0.6 else 'free'
         st = W.Stream(ctx, profile, mutants=0, soup=0, empties=False,
